@@ -328,8 +328,13 @@ def run_adv(seed: int, work: Path, trace_path: Path, *, steps: int = 40, mix: Op
         else:
             gens.extend(builtin_generators(rp.e, emit))
     rp = set_generators(rp, gens)
-    extra = {"builtin": all(p == "builtin" for p in parts), "scenario": f"adv{seed}", "mix": mix}
     acts = list(cosim or []) + (["throttle"] if throttle else [])
+    # "under the built-in dispatcher" (C17 uniqueness): every trip dispatch comes from the built-in dispatcher - pure
+    # built-in runs, or built-in generators next to controllers that never send a vehicle to a request
+    no_trips = kinds is not None and not any("Trip" in k for k in kinds)
+    only_builtin_dispatches = "builtin" in parts and not acts and all(
+        p in ("builtin", "charge", "queue") or (p == "adv" and no_trips) for p in parts)
+    extra = {"builtin": all(p == "builtin" for p in parts) or only_builtin_dispatches, "scenario": f"adv{seed}", "mix": mix}
     if acts:
         # a co-simulation user acts on the payload between calls of crank
         done = 0
